@@ -29,11 +29,14 @@ def sysv_hash(name):
     return h & 0xffffffff
 
 
-def build_gnu(names, symoffset, nbuckets, bloom_size, shift, cls, le):
-    """(bytes of the table, symbol names in final table order): hashed symbols are sorted by bucket"""
+def build_gnu(names, symoffset, nbuckets, bloom_size, shift, cls, le, perm=None):
+    """(bytes of the table, symbol names in final table order): the hashed symbols of one bucket are adjacent; the buckets'
+    chains follow one another in bucket order, or in the order perm gives (any order is a valid table: a lookup starts at the
+    index its bucket holds and walks to the end bit)"""
     e = '<' if le else '>'
     C = cls
-    unhashed, hashed = names[:symoffset], sorted(names[symoffset:], key=lambda n: gnu_hash(n) % nbuckets)
+    rank = (lambda b: b) if perm is None else (lambda b: perm[b])
+    unhashed, hashed = names[:symoffset], sorted(names[symoffset:], key=lambda n: rank(gnu_hash(n) % nbuckets))
     order = unhashed + hashed
     bloom = [0] * bloom_size
     buckets = [0] * nbuckets
@@ -108,7 +111,11 @@ def one_case(rng):
     symoffset = rng.randrange(1, len(names) + 1)
     nb = rng.choice([1, 1, 2, 3, 7])
     bsize, shift = rng.choice([1, 2, 4]), rng.choice([0, 5, 6, 26])
-    table, order = build_gnu(names, symoffset, nb, bsize, shift, cls, le)
+    perm = None
+    if rng.random() < 0.5:
+        perm = list(range(nb))
+        rng.shuffle(perm)
+    table, order = build_gnu(names, symoffset, nb, bsize, shift, cls, le, perm)
     head = W.write_elf(cls, le, [('.text', b'\x90' * 64, 0)])
     image = head + table
     ef = ELFFile(io.BytesIO(image))
